@@ -36,7 +36,9 @@ LEVEL_NOTE = ("Model = RxModel/Comb.lean + RxModel/CombHO.lean swM (latest id as
 "inner into the outer from inside on_next) the stale inner's notifications really reach the operator; the flat machine closes a source at `unsub` and therefore never "
 "delivers them - these runs are NOT replayed through the model, they are oracle-only cases (feedback cases: only-latest forwarding, completion only after outer and "
 "latest inner completed). Also oracle-only: two overlapping subscriptions of one switched observable on a shared hot outer, each compared with a subscription alone "
-"on a fresh instance. Stale pushes after unsubscription are generated with 'rude' hot sources.")
+"on a fresh instance. Stale pushes after unsubscription are generated with 'rude' hot sources. Also generated: the very same inner object "
+"delivered again while still running (one trace id per subscription), outers that emit inside subscribe, two SUCCESSIVE observers of one switched observable (besides "
+"overlapping ones); an exception escaping into the scheduler is recorded as an output ('X'), never a harness error.")
 
 OPS = ["switch_latest", "switch_map", "switch_map_indexed", "flat_map_latest"]
 
@@ -53,7 +55,12 @@ def cases(rng, tier):
         c = cc.gen_ho_case(rng, op, p_rude=0.5)
         if r < 0.22:
             # oracle-only: two subscriptions of the same switched observable alive at the same time, fed by a shared hot outer
-            c["second"] = {"dispose1": cc.SUBSCRIBE_AT + 5 * rng.randint(8, 16), "sub2": cc.SUBSCRIBE_AT + 5 * rng.randint(1, 6)}
+            if rng.random() < 0.5:
+                c["second"] = {"dispose1": cc.SUBSCRIBE_AT + 5 * rng.randint(8, 16), "sub2": cc.SUBSCRIBE_AT + 5 * rng.randint(1, 6)}
+            else:
+                # two successive observers: the first one received inners, is disposed, then the second one subscribes
+                d1 = cc.SUBSCRIBE_AT + 5 * rng.randint(4, 10)
+                c["second"] = {"dispose1": d1, "sub2": d1 + 5 * rng.randint(0, 4)}
             c["dispose"] = None
             if c["outer"]["mode"] != "hot":
                 c["outer"] = {"mode": "hot", "msgs": [[cc.SUBSCRIBE_AT + m[0]] + m[1:] for m in c["outer"]["msgs"]]}
@@ -72,6 +79,8 @@ def model_request(case):
     if "second" in case or case.get("feedback"):
         return None     # oracle-only (the flat trace machine does not model a source that is still inside its own subscribe)
     log, _ = cc.run_ho(case)
+    if cc.outer_delivers_after_end(case, log):
+        return None
     sp = cc.split_log(log, cc.sync_ids_of(case))
     return {"op": "switch", "events": [e for _, e in sp["events"]]}
 
@@ -181,7 +190,7 @@ def nontrivial(case, out):
 
 def bucket(case, out):
     if "second" in out:
-        yield "second_subscriber_overlapping"
+        yield "second_subscriber_" + ("overlapping" if case["second"]["sub2"] < case["second"]["dispose1"] else "successive")
         return
     if case.get("feedback"):
         yield "feedback_reentrant_switch"
@@ -204,6 +213,10 @@ def bucket(case, out):
     yield "simultaneous=" + str(len(ts) != len(set(ts)))
     yield "dispose=" + str(case.get("dispose") is not None)
     yield "mapper_raises=" + str("raise_on" in case)
+    if case.get("outer", {}).get("mode") == "sync":
+        yield "sync_outer" + ("_oracle_only" if cc.outer_delivers_after_end(case, out["log"]) else "")
+    if any("same_as" in s_ for s_ in case["inners"].values()):
+        yield "same_inner_object_twice"
     # stale notifications: events of an inner logged while it is not the latest arrived
     latest, stale_n, stale_e, switched_live = None, 0, 0, 0
     open_subs = set()
@@ -229,19 +242,4 @@ def bucket(case, out):
 
 
 def shrink(case):
-    for k in list(case["inners"]):
-        s = case["inners"][k]
-        for j in range(len(s.get("msgs", []))):
-            c = copy.deepcopy(case)
-            del c["inners"][k]["msgs"][j]
-            yield c
-    for j, m in enumerate(case["outer"]["msgs"]):
-        c = copy.deepcopy(case)
-        del c["outer"]["msgs"][j]
-        if m[1] == "N":
-            c["inners"].pop(str(m[2]), None)
-        yield c
-    if case.get("dispose") is not None:
-        c = copy.deepcopy(case)
-        c["dispose"] = None
-        yield c
+    yield from cc.shrink_ho(case)
